@@ -43,6 +43,12 @@ func c09FaultDrivers() []concParams {
 		add(fmt.Sprintf("flush+table-create-fault#%d-vs-reader-close", nth), "flushy/bytewise", []string{"put:a"}, [][]string{{"put:a", "put:b"}, {"get:a"}, {"close"}}, f(vstor.KCreate, storage.TypeTable, nth, 1, vstor.ModeFail))
 		add(fmt.Sprintf("bigbatch+table-write-fault#%d-vs-writer", nth), "bigbatch/bytewise", nil, [][]string{{"w:+a,+b,+c"}, {"put:a"}, {"close"}}, f(vstor.KWrite, storage.TypeTable, nth, 1, vstor.ModeFail))
 	}
+	// two writers whose merged group fills the write buffer exactly: the leader rotates the
+	// buffer after the write, and the rotation fails (journal create fault) or meets Close
+	fill := []string{"putM:a", "putE:b"} // 38 of 64 bytes used: two 13-byte puts fill the buffer exactly
+	out = append(out, concParams{Name: "merged-group-fills-buffer+journal-create-fault", Cfg: "wide/bytewise", Pre: fill, Clients: [][]string{{"put:a"}, {"put:b"}, {"get:a"}}, Faults: f(vstor.KCreate, storage.TypeJournal, 1, 1, vstor.ModeFail), QB: 2, TB: 3})
+	out = append(out, concParams{Name: "merged-group-fills-buffer-vs-close", Cfg: "wide/bytewise", Pre: fill, Clients: [][]string{{"put:a"}, {"put:b"}, {"close"}}, QB: 2, TB: 3})
+	out = append(out, concParams{Name: "merged-group-fills-buffer+table-create-fault", Cfg: "wide/bytewise", Pre: append([]string{"put:c", "put:c", "put:c", "put:c", "put:c"}, fill...), Clients: [][]string{{"put:a"}, {"put:b"}, {"put:c"}}, Faults: f(vstor.KCreate, storage.TypeTable, 1, 3, vstor.ModeFail), QB: 2, TB: 3})
 	add("compact+manifest-write-fault-vs-tr", "flushy/bytewise", []string{"put:a", "put:b"}, [][]string{{"cr"}, {"tr:+a,+b"}, {"put:c"}}, f(vstor.KWrite, storage.TypeManifest, 1, 1, vstor.ModeFail))
 	return out
 }
